@@ -260,6 +260,98 @@ func exec(line string) zv.Out {
 		})
 		want = refExporter13(suite, master, msgs, label, ctx, n)
 		tags = append(tags, fmt.Sprintf("suite=%04x", suite), lenTag("n", n), lenTag("label", len(label)), "res="+strings.Fields(want)[0])
+	case "keyssuite":
+		version, suite := uint16(atoi(f[2])), uint16(atoi(f[3]))
+		ms, cr, sr := zv.UnHex(f[4]), zv.UnHex(f[5]), zv.UnHex(f[6])
+		got = catch(func() string {
+			k := tls.ZVKeysForSuite(version, suite, ms, cr, sr)
+			var s []string
+			for _, x := range k {
+				s = append(s, zv.Hex(x))
+			}
+			return strings.Join(s, ",")
+		})
+		if prf, _, ok := refPRFForVersion(version, suite); ok {
+			mac, key, iv, known := refSuiteLens(suite)
+			if !known {
+				return zv.Out{Go: got, Viol: fmt.Sprintf("harness: no RFC lengths for suite %04x", suite), Tags: tags}
+			}
+			kb := prf(ms, []byte("key expansion"), cat(sr, cr), 2*mac+2*key+2*iv)
+			var s []string
+			for _, l := range []int{mac, mac, key, key, iv, iv} {
+				s = append(s, zv.Hex(kb[:l]))
+				kb = kb[l:]
+			}
+			want = strings.Join(s, ",")
+			tags = append(tags, fmt.Sprintf("suite-lens=%d/%d/%d", mac, key, iv))
+		} else {
+			want = "panic"
+		}
+		tags = append(tags, fmt.Sprintf("version=%04x", version))
+	case "hs13":
+		suite := uint16(atoi(f[2]))
+		early, shared, msgs := optHex(f[3]), zv.UnHex(f[4]), zv.UnHex(f[5])
+		got = catch(func() string {
+			c, s, m, err := tls.ZVEstablishHandshakeKeys13(suite, early != nil, early, shared, msgs)
+			if err != nil {
+				return "err"
+			}
+			return "ok " + zv.Hex(c) + "," + zv.Hex(s) + "," + zv.Hex(m)
+		})
+		{
+			// RFC 8446 7.1
+			hn := ref13Hash(suite)
+			size := hashByName(hn)().Size()
+			zeros := make([]byte, size)
+			ds := func(secret []byte, label string, m []byte) []byte {
+				return unOK(refExpandLabel(suite, secret, []byte(label), digest(hn, m), size))
+			}
+			e := early
+			if e == nil {
+				e = refExtract(suite, zeros, zeros)
+			}
+			hsS := refExtract(suite, shared, ds(e, "derived", nil))
+			want = "ok " + zv.Hex(ds(hsS, "c hs traffic", msgs)) + "," + zv.Hex(ds(hsS, "s hs traffic", msgs)) + "," + zv.Hex(refExtract(suite, zeros, ds(hsS, "derived", nil)))
+		}
+		tags = append(tags, fmt.Sprintf("suite=%04x", suite), fmt.Sprintf("usingPSK=%v", early != nil))
+	case "psk13":
+		suite := uint16(atoi(f[2]))
+		res, nonce, hello := zv.UnHex(f[3]), zv.UnHex(f[4]), zv.UnHex(f[5])
+		hn := ref13Hash(suite)
+		size := hashByName(hn)().Size()
+		got = catch(func() string {
+			// the four calls of loadSession / checkForResumption, on the real functions
+			psk := tls.ZVExpandLabel(suite, res, "resumption", nonce, size)
+			early := tls.ZVExtract(suite, psk, nil)
+			binderKey := tls.ZVDeriveSecret(suite, early, "res binder", nil, true)
+			return "ok " + zv.Hex(psk) + "," + zv.Hex(tls.ZVFinishedHash13(suite, binderKey, hello))
+		})
+		if len(nonce) > 255 {
+			want = "panic"
+		} else {
+			zeros := make([]byte, size)
+			psk := unOK(refExpandLabel(suite, res, []byte("resumption"), nonce, size))
+			early := refExtract(suite, psk, zeros)
+			bk := unOK(refExpandLabel(suite, early, []byte("res binder"), digest(hn, nil), size))
+			want = "ok " + zv.Hex(psk) + "," + zv.Hex(refFinished13(suite, bk, hello))
+		}
+		tags = append(tags, fmt.Sprintf("suite=%04x", suite), lenTag("nonce", len(nonce)), "res="+strings.Fields(want)[0])
+	case "app13":
+		suite := uint16(atoi(f[2]))
+		master, m1, m2 := zv.UnHex(f[3]), zv.UnHex(f[4]), zv.UnHex(f[5])
+		got = catch(func() string {
+			return "ok " + zv.Hex(tls.ZVDeriveSecret(suite, master, "c ap traffic", m1, false)) + "," +
+				zv.Hex(tls.ZVDeriveSecret(suite, master, "s ap traffic", m1, false)) + "," + zv.Hex(tls.ZVDeriveSecret(suite, master, "res master", m2, false))
+		})
+		{
+			hn := ref13Hash(suite)
+			size := hashByName(hn)().Size()
+			ds := func(label string, m []byte) string {
+				return zv.Hex(unOK(refExpandLabel(suite, master, []byte(label), digest(hn, m), size)))
+			}
+			want = "ok " + ds("c ap traffic", m1) + "," + ds("s ap traffic", m1) + "," + ds("res master", m2)
+		}
+		tags = append(tags, fmt.Sprintf("suite=%04x", suite))
 	case "prfseq", "ekmseq", "ekm13seq", "finseq", "sched13":
 		return execSeq(f)
 	case "ekmpar", "ekm13par":
